@@ -132,7 +132,52 @@ def t_on_error_goto(E, line, in_handler):
         E.prove(('suspend', (line != 0,)) in it._values.error_handler.log, 'soft arithmetic errors are raised while a trap is set')
 
 
+class _Stop(Exception):
+    pass
+
+
+class _StmtStream(Stream):
+    """A code stream positioned at a statement start whose first token is given."""
+    def __init__(self, pos, first):
+        Stream.__init__(self, pos)
+        self.first = first
+    def skip_blank_read(self, n=1):
+        self.pos += 1
+        return self.first
+    def read(self, n=1):
+        self.pos += n
+        return b'\x0a\x00\x14\x00'[:n]
+
+
+class _OneStatement(object):
+    """Parser stand-in: records where the interpreter thinks the statement started, then stops the loop."""
+    _pyvc_trusted = True
+    def __init__(self, it):
+        self.it = it
+        self.seen = None
+    def parse_statement(self, ins):
+        self.seen = self.it.current_statement
+        raise _Stop()
+
+
+def t_statement_start(E, first):
+    """Interpreter.parse records the start of EVERY statement it is about to run - also a statement that
+    begins a THEN / ELSE branch - because RESUME re-executes from that position and ERL is taken from it."""
+    it = make_interpreter(E, run_mode=True, pos=40)
+    P = E.int('position', 1, 150)
+    it._program_code = _StmtStream(P, first)
+    it.current_statement = 7
+    it.tron = False
+    it.step = lambda token: None
+    it.parser = _OneStatement(it)
+    r = E.call(it.parse)
+    E.prove(r.raised and isinstance(r.exc, _Stop), 'the statement is handed to the statement parser')
+    E.prove(it.parser.seen is not None and bool(it.parser.seen == P), 'current_statement is the position where this statement starts')
+
+
 TASKS = [
+    Task('Interpreter.parse (statement start bookkeeping)', t_statement_start,
+         cases=[{'first': f} for f in (b':', tk.THEN, tk.ELSE, tk.GOTO, b'\0')]),
     Task('Interpreter.trap_error', t_trap_error,
          cases=[{'on_error': o, 'in_handler': h, 'run_mode': m, 'has_pos': p} for o in (None, 0, 100)
                 for h in (False, True) for m in (True, False) for p in (True, False)]),
